@@ -17,6 +17,7 @@ ARRAY     coordinate arithmetic that the code performs on index *arrays*: the ex
             arr   an index array in the stored dtype
             py    a Python int (weak scalar: stays in the array's type, OverflowError if unfit)
             np64  an element of an intp array / a NumPy int64 scalar (promotes)
+          `X.astype(np.intp | np.int64)` inside such a tree becomes MachInt's `astype (DInt i64) X`.
 FACT      statements that must be present verbatim (a `(text, n)` pair: exactly n times); the given Coq
           text is emitted when they are.  Several entries may carry the same name: alternatives, the
           first that matches is emitted.
@@ -90,7 +91,7 @@ GENEXPR = [
 # params: Coq parameters in order, with types
 ARRAY = [
     dict(name="s_getitem_map", file=INDEXING, func="getitem",
-         stmt="coords.append((x.coords[i, mask] - ind.start) // ind.step)", what="value",
+         stmt="coords.append((x.coords[i, mask].astype(np.intp) - ind.start) // ind.step)", what="value",
          leaves={"x.coords[i, mask]": ("arr", "c"), "ind.start": ("py", "start"), "ind.step": ("py", "step")},
          params=[("c", "tarr"), ("start", "Z"), ("step", "Z")]),
     dict(name="s_flip_map", file=COMMON, func="flip",
@@ -98,11 +99,11 @@ ARRAY = [
          leaves={"x.shape[ax]": ("py", "n"), "x.coords[ax, :]": ("arr", "c")},
          params=[("n", "Z"), ("c", "tarr")]),
     dict(name="s_triu_mask", file=COMMON, func="triu",
-         stmt="mask = x.coords[-2] + k <= x.coords[-1]", what="cmp",
+         stmt="mask = x.coords[-2].astype(np.int64) + k <= x.coords[-1].astype(np.int64)", what="cmp",
          leaves={"x.coords[-2]": ("arr", "r"), "k": ("py", "k"), "x.coords[-1]": ("arr", "c")},
          params=[("r", "tarr"), ("c", "tarr"), ("k", "Z")]),
     dict(name="s_tril_mask", file=COMMON, func="tril",
-         stmt="mask = x.coords[-2] + k >= x.coords[-1]", what="cmp",
+         stmt="mask = x.coords[-2].astype(np.int64) + k >= x.coords[-1].astype(np.int64)", what="cmp",
          leaves={"x.coords[-2]": ("arr", "r"), "k": ("py", "k"), "x.coords[-1]": ("arr", "c")},
          params=[("r", "tarr"), ("c", "tarr"), ("k", "Z")]),
     # roll: `sh` is an element of np.full(len(axis), shift) (int64) when a scalar shift was given ...
